@@ -427,6 +427,10 @@ OnCtl(m, ev) ==
                              !.needProto = IF ev.k = "stop_proto" THEN FALSE ELSE @]
              m2 == End(m1, CASE ev.k = "stop_proto" -> "proto" [] ev.k = "stop_error" -> "error" [] OTHER -> "peer")
          IN IF m.stops >= 1 THEN Fail(m2, "C07:more-than-one-stop-notification")
+            ELSE IF ev.k = "stop_peer" /\ m.needProto /\ Healthy(m) /\ ~m.appDisc /\ m.expectStop = "none"
+              THEN \* a protocol violation is pending, nothing else has ended the connection, and the endpoint
+                   \* stops with peer-gone: it closed the connection quietly instead of reporting the violation
+                   Fail(m2, "C16:protocol-violation-ended-the-connection-without-a-protocol-error")
             ELSE IF ev.k = "stop_proto" /\ m.strict > 0 /\ ~m.needProto /\ Healthy(m) /\ m.expectStop = "none"
               THEN Fail(m2, "C" \o ToString(m.strict) \o ":connection-ended-with-a-protocol-error-although-the-peer-kept-to-the-rules")
             ELSE IF m.expectStop # "none" /\ m.expectStop # ev.k /\ ~m.term
